@@ -48,10 +48,10 @@ def bounds(tier):
         "batch_every_n": "SymInt in [0,6]",
         "batch_every_b": "SymInt in [0,16]",
         "batch_every_t": [0, 10],
-        "script_events": "5 (4 with the second, metadata-less topic)" if q else 6,
+        "script_events": "5 (4 with the second, metadata-less topic)" if q else "6 (5)",
         "sends": 3,
         "fault_budget": 0 if q else 1,
-        "message_variants": 2 if q else 3,
+        "message_variants": 2,
         "outside": "thresholds above 6 messages / 16 bytes (the comparisons are linear, larger values add no new branch); wall-clock time",
     }
 
@@ -73,7 +73,7 @@ def jobs(tier):
                     "batch_t": bt,
                     "codec": CODEC_NONE,
                     "api": 0,
-                    "K": (4 if two else 5) if q else 6,
+                    "K": (4 if two else 5) if q else (5 if two else 6),
                     "sends": 3,
                     "faults": 0 if q else 1,
                     "max_attempts": 2,
@@ -81,7 +81,7 @@ def jobs(tier):
                     "two_topics": two,
                     "cancel": True,
                     "stop": True,
-                    "variants": 2 if q else 3,
+                    "variants": 2,
                     "errcodes": 1,
                 }
             )
